@@ -2,6 +2,7 @@ package props
 
 import (
 	"fmt"
+	"strings"
 	"sync"
 	"time"
 
@@ -245,14 +246,109 @@ func c34Flights() *explore.Scenario {
 	}
 }
 
+// c34TwoHellos — the server's HelloRetryRequest state machine under crafted second hellos: the
+// first ClientHello carries no usable key share (so the server answers with a HelloRetryRequest),
+// the second one a fresh share, and each of the two carries one of the ECH extension shapes of a
+// small menu (absent, inner marker, outer with all-zero parameters, outer GREASE-like, a real
+// outer extension lifted from another hello) — every pair, with and without ECH keys on the
+// server, plus the other fields a second hello may not change.
+func c34TwoHellos() *explore.Scenario {
+	echShapes := func() [][]byte {
+		zeroOuter := append([]byte{0, 0, 0, 0, 0, 0, 0, 0}, append([]byte{0, 16}, make([]byte, 16)...)...)
+		grease := append([]byte{0, 0, 1, 0, 1, 7, 0, 32}, append(rep(0x5a, 32), append([]byte{0, 144}, rep(0xa5, 144)...)...)...)
+		var real []byte
+		for _, h := range c34Corpus() {
+			if strings.HasPrefix(h.name, "ech:") {
+				if ph, err := wire.ParseClientHello(h.msg); err == nil {
+					if e := ph.Find(0xfe0d); e != nil {
+						real = e.Body
+						break
+					}
+				}
+			}
+		}
+		return [][]byte{nil, {1}, zeroOuter, grease, real}
+	}
+	names := []string{"absent", "inner", "outer-all-zero", "outer-grease", "outer-real"}
+	return &explore.Scenario{
+		Name:     "second-hello-after-retry-request",
+		Watchdog: 60 * time.Second, HangSig: "C34|hang",
+		Run: func(x *explore.X) (r explore.Result) {
+			shapes := echShapes()
+			e1 := x.Choose("ech1", len(shapes))
+			e2 := x.Choose("ech2", len(shapes))
+			withECH := x.Choose("srv.ech", 2) == 1
+			other := x.Choose("second", 4) // 0 faithful copy, 1 other random, 2 other suites, 3 share for an unrequested group
+			var base *wire.Hello
+			for _, h := range c34Corpus() {
+				if h.name == "custom:tls13-minimal" {
+					base, _ = wire.ParseClientHello(h.msg)
+				}
+			}
+			if base == nil || base.Find(51) == nil {
+				r.Violate("INFRA|c34-base-hello", "no base hello")
+				return
+			}
+			withExt := func(h *wire.Hello, typ uint16, body []byte) *wire.Hello {
+				c := *h
+				c.Exts = nil
+				for _, e := range h.Exts {
+					if e.Type != typ {
+						c.Exts = append(c.Exts, e)
+					}
+				}
+				if body != nil {
+					c.Exts = append(c.Exts, wire.Ext{Type: typ, Body: body})
+				}
+				return &c
+			}
+			share := func(group uint16, n int) []byte {
+				b := []byte{byte((4 + n) >> 8), byte(4 + n), byte(group >> 8), byte(group), byte(n >> 8), byte(n)}
+				return append(b, rep(9, n)...)
+			}
+			h1 := withExt(withExt(base, 51, []byte{0, 0}), 0xfe0d, shapes[e1])
+			h2 := withExt(withExt(base, 51, share(29, 32)), 0xfe0d, shapes[e2])
+			switch other {
+			case 1:
+				c := *h2
+				c.Random = rep(0x77, 32)
+				h2 = &c
+			case 2:
+				c := *h2
+				c.Suites = []uint16{tls.TLS_CHACHA20_POLY1305_SHA256}
+				h2 = &c
+			case 3:
+				h2 = withExt(h2, 51, share(23, 65))
+			}
+			stream := append(recordOf(rebuildHello(h1, nil)), []byte{20, 3, 3, 0, 1, 1}...)
+			rec2 := recordOf(rebuildHello(h2, nil))
+			rec2[2] = 3 // the second flight travels in TLS 1.2-versioned records
+			stream = append(stream, rec2...)
+			what := fmt.Sprintf("hello1 ech=%s, hello2 ech=%s variation=%d, server ech keys=%v", names[e1], names[e2], other, withECH)
+			err, pm := serveBytes(stream, withECH)
+			r.Nontrivial = true
+			if pm != "" {
+				r.Violate(fmt.Sprintf("C34|server-panic|two-hellos|ech1=%s|ech2=%s|%s", names[e1], names[e2], errClass(fmt.Errorf("%s", firstLineOf(pm)))), "%s: the server panicked: %s", what, truncStr(pm, 400))
+			}
+			r.Count("server_returned", 1)
+			r.Obs = "serr=" + truncStr(errClass(err), 70)
+			r.Class = what + "|" + r.Obs
+			if e1 == e2 || e1 == 1 {
+				r.Sample = map[string]any{"case": what, "server_error": fmt.Sprint(err)}
+			}
+			return
+		},
+	}
+}
+
 func c34Scenarios(thorough bool) []*explore.Scenario {
-	return []*explore.Scenario{c34Hellos(thorough), c34Flights()}
+	return []*explore.Scenario{c34Hellos(thorough), c34Flights(), c34TwoHellos()}
 }
 
 func init() {
 	register(&Prop{ID: "C34", Level: "exploration", Variant: "A", Scenarios: c34Scenarios,
 		Run: func(c *explore.Check, thorough bool) {
-			c.Rule = "ClientHello of every discovered ID, custom specs, real-ECH outer hellos (server holding the matching key) and a PSK hello x server {with, without ECH keys} x mutation {every byte position (all for <= 300 B, else head/stride/tail) x values {00, ff, ^01 (+7f, 80)}, truncation to every such length, every extension body truncated to every length with all outer prefixes fixed, every key share resized to {0,1,31,32,33,64,65,100,600,1183,1184,1185,1215,1217} bytes with consistent prefixes}; complete flights of 6 clients x {1.3,1.2} x client auth in which the client inserts an extra handshake message of type {8,25,99,4,24,1,11,20} with 0/2/300-byte body before/after each of its own messages (client-side verif hook). Oracle: server Handshake/Read return without panic (watchdog 60 s). distinct = case"
+			c.Rule = "ClientHello of every discovered ID, custom specs, real-ECH outer hellos (server holding the matching key) and a PSK hello x server {with, without ECH keys} x mutation {every byte position (all for <= 300 B, else head/stride/tail) x values {00, ff, ^01 (+7f, 80)}, truncation to every such length, every extension body truncated to every length with all outer prefixes fixed, every key share resized to {0,1,31,32,33,64,65,100,600,1183,1184,1185,1215,1217} bytes with consistent prefixes}; complete flights of 6 clients x {1.3,1.2} x client auth in which the client inserts an extra handshake message of type {8,25,99,4,24,1,11,20} with 0/2/300-byte body before/after each of its own messages (client-side verif hook); two-hello inputs: a first hello without a usable share (forcing a HelloRetryRequest) and a second hello, each carrying one of 5 ECH extension shapes {absent, inner marker, outer all-zero, outer GREASE-like, real outer} x 4 second-hello variations x server with/without ECH keys. Oracle: server Handshake/Read return without panic (watchdog 60 s). distinct = case"
 			c.Assumptions = []string{"small-scope: one mutation per execution from a fixed menu", "QUIC server input is not covered"}
 			runAll(c, c34Scenarios(thorough), 0)
 			c.Gate(c.Total.Counters["server_returned"] > 50000, "non-vacuity: %d server runs", c.Total.Counters["server_returned"])
